@@ -19,7 +19,14 @@ class DirHandler(BaseHandler):
 
     def canhandlerequest(self) -> bool:
         """We can handle the request if it's for a directory."""
-        return self.statresult and stat.S_ISDIR(self.statresult[stat.ST_MODE])
+        # "<dir>/." names the same directory (and the same cache file) as
+        # "<dir>", but every child selector built from it contains "./" and is
+        # refused: the empty listing would be cached as the listing of <dir>.
+        return (
+            self.statresult
+            and stat.S_ISDIR(self.statresult[stat.ST_MODE])
+            and not self.getselector().endswith("/.")
+        )
 
     def getentry(self) -> gopherentry.GopherEntry:
         if not self.entry:
